@@ -160,6 +160,44 @@ func (r *runner) gc2(o *sop, e ev) {
 	e["reads"] = r.readAll()
 }
 
+// pretend mode (C17: "in pretend mode changes nothing"): two dry-run requests through HStore.GC, then a real one.
+// Logs whether a pass was left registered, whether any data file changed, and what each request returned.
+func (r *runner) gcp(o *sop, e ev) {
+	errs := func(x error) string {
+		if x == nil {
+			return ""
+		}
+		return x.Error()
+	}
+	registered := func() int {
+		r.store.gcMgr.mu.Lock()
+		defer r.store.gcMgr.mu.Unlock()
+		return len(r.store.gcMgr.stat)
+	}
+	vs.setProc("req")
+	before := r.inventory()
+	b1, e1, err1 := r.store.GC(r.sc.Conf.Bucket, o.Begin, o.End, 0, false, true)
+	reg1 := registered()
+	b2, e2, err2 := r.store.GC(r.sc.Conf.Bucket, o.Begin, o.End, 0, false, true)
+	reg2 := registered()
+	after := r.inventory()
+	changed := len(before) != len(after)
+	for c, x := range before {
+		y, ok := after[c]
+		if !ok || y.Size != x.Size || sha(y.Data) != sha(x.Data) {
+			changed = true
+		}
+	}
+	b3, e3, err3 := r.store.GC(r.sc.Conf.Bucket, o.Begin, o.End, 0, false, false)
+	for i := 0; i < 20000 && r.store.IsGCRunning(); i++ {
+		time.Sleep(time.Millisecond)
+	}
+	e["a"], e["p"] = "GCP", "req"
+	e["p1"], e["p2"], e["real"] = []interface{}{b1, e1, errs(err1)}, []interface{}{b2, e2, errs(err2)}, []interface{}{b3, e3, errs(err3)}
+	e["reg1"], e["reg2"], e["changed"], e["stillrunning"] = reg1, reg2, changed, r.store.IsGCRunning()
+	e["reads"] = r.readAll()
+}
+
 // ---- free-running clients -----------------------------------------------------------
 
 type freeSpec struct {
